@@ -747,7 +747,7 @@ class Fn:
             pat, repl = s[0], s[1]
             expect = s[2] if len(s) > 2 else None
             body, n = re.subn(pat, repl, body, flags=re.S)
-            if (expect is None and n == 0) or (expect is not None and expect >= 0 and n != expect):
+            if ((expect is None or expect >= 1) and n == 0) or (expect == 0 and n != 0):   # a count >= 1 means 'fires at least once'
                 raise ExtractionError("%s:%d %s: substitution /%s/ fired %d times, expected %s"
                                       % (self.file, ex.line, self.cname(), pat, n,
                                          'at least 1' if expect is None else expect))
@@ -825,7 +825,7 @@ class Braced:
             pat, repl = s_[0], s_[1]
             expect = s_[2] if len(s_) > 2 else None
             body, n = re.subn(pat, repl, body, flags=re.S)
-            if (expect is None and n == 0) or (expect is not None and expect >= 0 and n != expect):
+            if ((expect is None or expect >= 1) and n == 0) or (expect == 0 and n != 0):   # a count >= 1 means 'fires at least once'
                 raise ExtractionError("%s:%d: substitution /%s/ fired %d times, expected %s" % (self.file, ex.line, pat, n, expect))
             rep.append({'pattern': pat, 'replacement': repl, 'fired': n})
         rules = Rules()
